@@ -1,9 +1,12 @@
 import PrologVerif.Driver.Common
 import PrologVerif.Driver.C18
+import PrologVerif.Driver.C08
 open PrologVerif PrologVerif.Driver
 
 def handlers : List (String × Handler) :=
-  [ ("c18.hist", C18.handler) ]
+  [ ("c18.hist", C18.handler),
+    ("c08.compare", C08.compareHandler),
+    ("c08.sort", C08.sortHandler) ]
 
 partial def loop (h : IO.FS.Stream) (out : IO.FS.Stream) (f : Handler) : IO Unit := do
   let line ← h.getLine
